@@ -546,7 +546,20 @@ def rebinding_discipline(ctx, rule: str, fn: FunctionInfo, mine: Set[str]) -> in
     return n
 
 
-def forwarding_discipline(ctx, rule: str, params: Iterable[str], minimum: int) -> None:
+_JWE_ONLY = ("jwe", "rfc7516", "rfc7518.jwe_algs", "rfc7518.jwe_encs", "rfc7518.jwe_zips", "rfc7518.derive_key", "drafts.jwe_chacha20", "drafts.jwe_ecdh_1pu")
+_JWS_ONLY = ("jws", "rfc7515", "rfc7797", "rfc7518.jws_algs", "rfc8037.jws_eddsa", "rfc8812")
+
+
+def in_family(fn: FunctionInfo, family: Optional[str]) -> bool:
+    """a JWS property does not speak about code that only JWE operations run, and vice versa (shared code - keys, registries, util, jwt - belongs to both)"""
+    if family is None:
+        return True
+    other = _JWE_ONLY if family == "jws" else _JWS_ONLY
+    ms = fn.module.short
+    return not any(ms == o or ms.startswith(o + ".") for o in other)
+
+
+def forwarding_discipline(ctx, rule: str, params: Iterable[str], minimum: int, family: Optional[str] = None) -> None:
     """wherever a function that has a parameter named p calls a function that also has a parameter named p, it hands on p itself or a
     value derived from p (to_bytes(p), p.attr, p(...)); anything else - another variable, a constant, an omitted argument - is a
     mis-routed or dropped argument unless the site is in the frozen exception table.  (On the unchanged tree 400+ sites follow
@@ -555,7 +568,7 @@ def forwarding_discipline(ctx, rule: str, params: Iterable[str], minimum: int) -
     want = set(params)
     n = 0
     for fn in eng.prog.all_functions():
-        if fn.name == "<module>":
+        if fn.name == "<module>" or not in_family(fn, family):
             continue
         mine = want & set(fn.params)
         if not mine:
@@ -585,11 +598,20 @@ def forwarding_discipline(ctx, rule: str, params: Iterable[str], minimum: int) -
     # attribute routing: a callee parameter p (one the property speaks about) that is given `<x>.q`, where q is the name of ANOTHER parameter of
     # the same callee, is a swapped setting (`verify_all_recipients=registry.strict_check_header`, or the same by position)
     for fn in eng.prog.all_functions():
+        if not in_family(fn, family):
+            continue
         for s in eng.cg.calls_in(fn):
             if not isinstance(s.node, ast.Call):
                 continue
             for c in s.callees:
                 cps = set(c.params) - {"self", "cls"}
+                for p in cps:
+                    a = eng.cg.arg_for_param(s, c, p)
+                    # crossed names: the callee's parameter p is given a variable that carries the name of ANOTHER parameter q of the same callee
+                    # (`Encryption(protected, None, protected, aad)` for `(protected, plaintext, unprotected, aad)`); no site of the reference tree does that
+                    if isinstance(a, ast.Name) and a.id != p and a.id in cps and (p in want or a.id in want):
+                        ctx.fail(rule, fn, s.node, f"{fn.short} gives {c.short} its `{p}` from the variable `{a.id}`, which carries the name of the callee's parameter `{a.id}`: "
+                                 f"two arguments are crossed or one is passed twice", construct=f"{p} of {c.short} taken from variable {a.id} in {fn.short}")
                 for p in want & cps:
                     a = eng.cg.arg_for_param(s, c, p)
                     if isinstance(a, ast.Attribute) and a.attr in cps:
@@ -664,3 +686,69 @@ def built_lists(fn: FunctionInfo) -> List[Dict[str, object]]:
                 if len(inits) == 1 and isinstance(inits[0].value, ast.List) and not inits[0].value.elts and not others:
                     out.append({"name": nm, "elt": body[0].value.args[0], "iter": n.iter, "var": norm(n.target), "ifs": ifs, "node": n})
     return out
+
+
+def member_crossing(ctx, rule: str, family: Optional[str], shared: bool = False) -> None:
+    """a function that writes several named members (`{"payload": ..., "signature": ...}`, `data["unprotected"] = ...`) fills each from the
+    value of that name: a member m whose value mentions the name of ANOTHER member written by the same function, and not its own, is a
+    crossed pair (`data["unprotected"] = obj.protected`).  No function of the reference tree does that (158 stores).  `family` selects
+    the JWS-only / JWE-only functions, `shared` the functions that belong to neither."""
+    eng = ctx.eng
+
+    def idents(e: ast.AST) -> Set[str]:
+        out: Set[str] = set()
+        for x in ast.walk(e):
+            if isinstance(x, ast.Name):
+                out.add(x.id)
+            elif isinstance(x, ast.Attribute):
+                out.add(x.attr)
+            elif isinstance(x, ast.Constant) and isinstance(x.value, str):
+                out.add(x.value)
+        return out | {t_ for i in out for t_ in i.split("_")}
+    n = 0
+    for fn in eng.prog.all_functions():
+        if fn.name == "<module>":
+            continue
+        only_jws, only_jwe = not in_family(fn, "jwe"), not in_family(fn, "jws")
+        if shared:
+            if only_jws or only_jwe:
+                continue
+        elif not ((family == "jws" and only_jws) or (family == "jwe" and only_jwe)):
+            continue
+        stores = []
+        for x in fn_nodes(fn):
+            if isinstance(x, ast.Dict):
+                for k, v in zip(x.keys, x.values):
+                    if k is not None and isinstance(k, ast.Constant) and isinstance(k.value, str):
+                        stores.append((k.value, v, x))
+            if isinstance(x, ast.Assign) and len(x.targets) == 1 and isinstance(x.targets[0], ast.Subscript) and isinstance(x.targets[0].slice, ast.Constant) \
+                    and isinstance(x.targets[0].slice.value, str):
+                stores.append((x.targets[0].slice.value, x.value, x))
+        keys = {m for m, _, _ in stores}
+        for m, v, x in stores:
+            n += 1
+            ids = set()
+            for t_ in [v] + [ast.parse(t, mode="eval").body for t in resolve_all(eng, fn, v) if t and len(t) < 400]:
+                ids |= idents(t_)
+            others = sorted(q for q in keys if q != m and q in ids)
+            if others and m not in ids:
+                ctx.fail(rule, fn, x, f"{fn.short} fills the member \"{m}\" from `{norm(v)[:50]}`, which is the value of its member \"{others[0]}\": two members are crossed",
+                         construct=f"member {m} filled from {others[0]} in {fn.short}")
+            # the same for the test that decides whether an optional member is written
+            if isinstance(x, ast.Assign) and len(keys) > 1:
+                from ..cfg import cfg_of
+                cfg = cfg_of(fn)
+                sn = cfg.node_of(x)
+                for t in cfg.nodes if sn is not None else []:
+                    if t.kind != "test" or t.ast is None:
+                        continue
+                    r_true = sn in cfg.reachable(cfg.entry, edge_filter=lambda a, b, lab, _t=t: not (a is _t and lab == "false"))
+                    r_false = sn in cfg.reachable(cfg.entry, edge_filter=lambda a, b, lab, _t=t: not (a is _t and lab == "true"))
+                    if r_true == r_false:
+                        continue
+                    tid = idents(t.ast)
+                    oth = sorted(q for q in keys if q != m and q in tid)
+                    if oth and m not in tid:
+                        ctx.fail(rule, fn, x, f"{fn.short} writes the member \"{m}\" depending on `{norm(t.ast)[:50]}`, which speaks about its member \"{oth[0]}\": the guards of two members are crossed",
+                                 construct=f"member {m} guarded by {oth[0]} in {fn.short}")
+    ctx.ok(rule, "named members filled from the value of the same name", f"{n} constant-key stores in functions")
